@@ -4,7 +4,11 @@
 
 package cgnat
 
-import "fmt"
+import (
+	"fmt"
+	"net"
+	"sort"
+)
 
 type Config struct {
 	Standalone                bool             `json:"standalone,omitempty" yaml:"standalone,omitempty"`
@@ -73,6 +77,50 @@ func (c *Config) Validate() error {
 				return fmt.Errorf("cgnat: pool %q: outside_interfaces: duplicate entry %q", name, entry)
 			}
 			seen[entry] = struct{}{}
+		}
+	}
+	return c.validateOutsideAddressOverlap()
+}
+
+// validateOutsideAddressOverlap rejects two pools that list a common outside
+// address. Every pool allocates port blocks from its own bitmap, so a shared
+// address would have each of its port blocks handed to two subscribers (and
+// the component's reverse index, keyed by address and port, could name only
+// one of them).
+func (c *Config) validateOutsideAddressOverlap() error {
+	type entry struct {
+		pool string
+		net  *net.IPNet
+		text string
+	}
+	names := make([]string, 0, len(c.Pools))
+	for name, pool := range c.Pools {
+		if pool != nil {
+			names = append(names, name)
+		}
+	}
+	sort.Strings(names)
+	var entries []entry
+	for _, name := range names {
+		for _, addr := range c.Pools[name].OutsideAddresses {
+			var ipNet *net.IPNet
+			if ip := net.ParseIP(addr); ip != nil && ip.To4() != nil {
+				ipNet = &net.IPNet{IP: ip.To4(), Mask: net.CIDRMask(32, 32)}
+			} else if _, parsed, err := net.ParseCIDR(addr); err == nil {
+				ipNet = parsed
+			} else {
+				continue
+			}
+			for _, e := range entries {
+				if e.pool == name {
+					continue
+				}
+				if e.net.Contains(ipNet.IP) || ipNet.Contains(e.net.IP) {
+					return fmt.Errorf("cgnat: pools %q and %q share outside addresses (%s overlaps %s); an outside address may belong to one pool only",
+						e.pool, name, e.text, addr)
+				}
+			}
+			entries = append(entries, entry{pool: name, net: ipNet, text: addr})
 		}
 	}
 	return nil
